@@ -25,13 +25,15 @@ CONSTANTS InSession,      \* TRUE: V2Session.SendCommand; FALSE: V2Sessionless.S
           DupCodes,       \* ... for delayed and duplicated replies
           StaleCodes,     \* ... for replies that belong to another command
           NeedsBody,      \* commands whose response layer cannot decode an empty body
+          Refused,        \* commands whose request layer refuses to serialise (e.g. Set Session Privilege Level 01h)
 
-          G_Flag, G_Sid, G_Match, G_Rebuild, G_PreInc, G_Temp, G_Terminal
+          G_Flag, G_Sid, G_Match, G_Rebuild, G_PreInc, G_Temp, G_Terminal,
+          G_SeqAfterBuild \* the session sequence number is taken only once the packet has been serialised
 
 Codes == {"ok", "err", "busy", "tmo"}
 Temporary == {"busy", "tmo"}             \* node busy 0xC0, timeout 0xC3 (completion_code.go: IsTemporary)
 AllKinds == {"final", "garbage", "trunc", "lost", "xerr", "late", "dup", "stale",
-             "badsig", "unauth", "wrongsid", "badpad"}
+             "badsig", "unauth", "unauthmine", "wrongsid", "badpad"}
 ASSUME EnvKinds \subseteq AllKinds /\ EnvCodes \subseteq Codes /\ DupCodes \subseteq Codes /\ StaleCodes \subseteq Codes
 
 VARIABLES pc,       \* "idle" | "attempt" | "env" | "recv"
@@ -70,8 +72,19 @@ Start(c) ==
   /\ UNCHANGED <<seqIn, sock, late, sent, results>>
 
 \* one iteration of the retry closure up to transport.Send
+\* a request that cannot be serialised: "not a retryable error" - the call returns it, nothing is transmitted and
+\* (G_SeqAfterBuild) no sequence number is used up
+Refuse ==
+  /\ pc = "attempt" /\ cur.cmd \in Refused
+  /\ seqIn' = IF InSession /\ ~G_SeqAfterBuild THEN seqIn + 1 ELSE seqIn
+  /\ results' = Append(results, [call |-> calls, cmd |-> cur.cmd, err |-> TRUE, code |-> "none", from |-> NoDgram])
+  /\ m' = [m EXCEPT !.failures[cur.cmd] = @ + 1]
+  /\ g' = [g EXCEPT !.errs[cur.cmd] = @ + 1]
+  /\ pc' = "idle"
+  /\ UNCHANGED <<calls, cur, sock, late, ctx, sent, hist>>
+
 Attempt ==
-  /\ pc = "attempt"
+  /\ pc = "attempt" /\ cur.cmd \notin Refused
   /\ LET first == cur.n = 0
          \* G_Rebuild FALSE models the closure re-serialising from layers that the
          \* previous response decode overwrote (addresses, NetFn, session ID)
@@ -87,7 +100,7 @@ Attempt ==
   /\ UNCHANGED <<calls, sock, late, ctx, results, hist>>
 
 \* --------------------------------------------------------------- environment
-OtherCmds(c) == Cmds \ {c}
+OtherCmds(c) == (Cmds \ Refused) \ {c}
 Auth(c, cc) == [forCmd |-> c, cc |-> cc, dec |-> TRUE, sig |-> TRUE, flag |-> TRUE,
                 sid |-> IF InSession THEN "mine" ELSE "null",
                 \* a non-normal code comes without a body: SendCommand still tries to decode one
@@ -106,13 +119,15 @@ Outcome(o) ==   \* datagrams arriving <<now, late>> for outcome o
     [] o.kind = "stale"    -> << <<[Auth(o.other, o.cc) EXCEPT !.kind = "stale"]>>, <<>> >>
     [] o.kind = "badsig"   -> << <<[Auth(c, "ok") EXCEPT !.sig = FALSE, !.kind = "badsig"]>>, <<>> >>
     [] o.kind = "unauth"   -> << <<[Auth(c, "ok") EXCEPT !.sig = FALSE, !.flag = FALSE, !.sid = "null", !.kind = "unauth"]>>, <<>> >>
+    \* no AuthCode and the authenticated flag cleared, but addressed to this session's ID (which travels in clear)
+    [] o.kind = "unauthmine" -> << <<[Auth(c, "ok") EXCEPT !.sig = FALSE, !.flag = FALSE, !.kind = "unauthmine"]>>, <<>> >>
     [] o.kind = "wrongsid" -> << <<[Auth(c, "ok") EXCEPT !.sid = "other", !.kind = "wrongsid"]>>, <<>> >>
     [] o.kind = "badpad"   -> << <<[Auth(c, "ok") EXCEPT !.dec = FALSE, !.kind = "badpad"]>>, <<>> >>
 
 Outcomes ==
   LET cc(k) == {[kind |-> k, cc |-> x] : x \in (IF k = "final" THEN EnvCodes ELSE DupCodes)}
       plain(k) == {[kind |-> k, cc |-> "ok"]}
-      sess == IF InSession THEN {"badsig", "unauth", "wrongsid", "badpad"} ELSE {}
+      sess == IF InSession THEN {"badsig", "unauth", "unauthmine", "wrongsid", "badpad"} ELSE {}
   IN  UNION { IF k \in {"final", "late", "dup"} THEN cc(k)
               ELSE IF k = "stale" THEN {[kind |-> k, cc |-> y, other |-> x] : x \in OtherCmds(cur.cmd), y \in StaleCodes}
               ELSE IF k \in sess \cup {"garbage", "trunc", "lost", "xerr"} THEN plain(k)
@@ -183,9 +198,9 @@ Recv ==
                        /\ pc' = "idle"
   /\ UNCHANGED <<calls, cur, seqIn, ctx, sent, hist>>
 
-Next == (\E c \in Cmds : Start(c)) \/ Attempt \/ (\E o \in Outcomes : Env(o)) \/ Recv
+Next == (\E c \in Cmds : Start(c)) \/ Attempt \/ Refuse \/ (\E o \in Outcomes : Env(o)) \/ Recv
 Spec == Init /\ [][Next]_vars
-FairSpec == Spec /\ WF_vars(Attempt) /\ WF_vars(Recv) /\ WF_vars(\E o \in Outcomes : Env(o))
+FairSpec == Spec /\ WF_vars(Attempt) /\ WF_vars(Refuse) /\ WF_vars(Recv) /\ WF_vars(\E o \in Outcomes : Env(o))
 
 \* ------------------------------------------------------------------ properties
 LastSent == sent[Len(sent)]
